@@ -181,6 +181,12 @@ def printed_with_tag(res: TlcResult, tag: str) -> list[str]:
     return out
 
 
+def simulate(module: str, cfg: str, num: int, depth: int, seed: int = 0, timeout: int = 600) -> TlcResult:
+    """random walks of a Gen_* configuration (leg B: TLC-generated behaviours)"""
+    return run_tlc(module, cfg, workers=1, timeout=timeout,
+                   extra=["-simulate", f"num={num}", "-depth", str(depth), "-seed", str(seed + 1)])
+
+
 def beh_json(res: TlcResult, tag: str = "BEH") -> list:
     """Values printed as PrintT(<<tag, ToJson(v)>>), decoded."""
     vals = []
